@@ -3,8 +3,10 @@ CONSTANTS
   MaxNodes = 12
   BaseSet <- AllBases
   RunCfgSeq <- RunsThorough
-  Prods <- AllProds
+  Prods <- TreeProds
   KISet <- KIClassic
+  EnvWhereSet <- EnvWheres
+  Deviations = {}
   EmitMin = 3
   EmitFrom = 3
   EmitMod = 8
